@@ -220,7 +220,7 @@ func countTags(n *Node) (carousels, hamburgers int) {
 }
 
 func runC05(res *Result, tier string, seed int64, replay string) {
-	res.Rule = "documents = seeded grammar documents biased to ≥2 distinct web-font families (stacks naming several mapped fonts included), several column widths, mj-class lists, global attributes, carousels and hamburger navbars, + all fixtures; each compiled N times in this process (sequentially) and once in each of P fresh processes that compile the whole list in different orders (one of them the exact reverse); + pairs of documents differing in one class of head content only (other mj-attributes / mj-class / inline rules / fonts, same body and author HTML); outputs compared byte-wise after α-renaming the 16-hex generated ids; per output the number of distinct ids must equal the number of carousels + hamburger navbars. Font lookup: real GetGoogleFontURL vs the Lean model `pick` on every family. Non-trivial = document with ≥2 distinct font families; distinct by source"
+	res.Rule = "every document is also compiled right after compilations that FAILED (an element that cannot be rendered behind sections already written, in a hero, in a wrapper; a parse error; a validation error) and must return the same bytes; documents = seeded grammar documents biased to ≥2 distinct web-font families (stacks naming several mapped fonts included), several column widths, mj-class lists, global attributes, carousels and hamburger navbars, + all fixtures; each compiled N times in this process (sequentially) and once in each of P fresh processes that compile the whole list in different orders (one of them the exact reverse); + pairs of documents differing in one class of head content only (other mj-attributes / mj-class / inline rules / fonts, same body and author HTML); outputs compared byte-wise after α-renaming the 16-hex generated ids; per output the number of distinct ids must equal the number of carousels + hamburger navbars. Font lookup: real GetGoogleFontURL vs the Lean model `pick` on every family. Non-trivial = document with ≥2 distinct font families; distinct by source"
 	nDocs, reps, procs := 150, 20, 4
 	if tier == "thorough" {
 		nDocs, reps, procs = 1500, 100, 12
@@ -304,6 +304,47 @@ func runC05(res *Result, tier string, seed int64, replay string) {
 					Input: map[string]string{"source": d.src, "doc": d.name}})
 				break
 			}
+		}
+	}
+	// (1b) "regardless of what was compiled before" — also when what was compiled before FAILED: compilations that stop half-way
+	// (an element that cannot be rendered behind sections that were already written, in a hero, in a wrapper; a parse error; a
+	// validation error) alternate with compilations of good documents, which must return what they returned before
+	if replay == "" {
+		pre := `<mj-section><mj-column><mj-text>LEFTOVER-MARKER text of a compilation that failed</mj-text></mj-column></mj-section>`
+		var failing []string
+		for _, c := range []string{
+			`<mj-section><mj-column><mj-image/></mj-column></mj-section>`,
+			`<mj-section><mj-column><mj-carousel></mj-carousel></mj-column></mj-section>`,
+			`<mj-section><mj-column><mj-carousel-image src="a.png"/></mj-column></mj-section>`,
+			`<mj-section><mj-column><mj-text bogus="1">v</mj-text></mj-column></mj-section>`,
+			`<mj-section><mj-column><mj-text>unclosed</mj-column></mj-section>`,
+			`<mj-hero><mj-text>h</mj-text><mj-image/></mj-hero>`,
+			`<mj-wrapper><mj-section><mj-column><mj-text>w</mj-text><mj-carousel/></mj-column></mj-section></mj-wrapper>`,
+		} {
+			failing = append(failing, `<mjml><mj-head><mj-title>failed</mj-title><mj-attributes><mj-text color="#123456"/><mj-class name="c" padding="1px"/></mj-attributes><mj-style inline="inline">.k { top: 0 }</mj-style></mj-head><mj-body>`+pre+pre+c+`</mj-body></mjml>`)
+		}
+		step := len(docs)/40 + 1
+		for fi, f := range failing {
+			for i := fi % step; i < len(docs); i += step {
+				for k := 0; k < 3; k++ {
+					mjml.Render(f)
+					h2, err2 := mjml.Render(docs[i].src)
+					e2 := ""
+					if err2 != nil {
+						e2 = err2.Error()
+					}
+					res.mu.Lock()
+					res.Programs++
+					res.mu.Unlock()
+					if alphaIDs(h2)+"\x00"+e2 != base[i] {
+						at := firstDiff(alphaIDs(h2), strings.SplitN(base[i], "\x00", 2)[0])
+						res.Violate(Violation{Sig: "nondeterministic|after-failed-compilation", Kind: "history", What: fmt.Sprintf("compiled right after a compilation that failed, the document returns different bytes at offset %d: …%s…", at, around(alphaIDs(h2), at)),
+							Input: map[string]string{"failed-before": f, "source": docs[i].src, "doc": docs[i].name}})
+						break
+					}
+				}
+			}
+			res.Count("after-failed-compilation")
 		}
 	}
 	// (2) fresh processes, different compile orders
